@@ -152,8 +152,8 @@ def finish(run, spec, proof, sw):
 
     coverage = {
         "obligations": n_obl, "discharged": n_ok,
-        "checker_cmd": "cd lean && lake build {} && lake env lean .cache/audit/Audit_{}.lean  (#print axioms of every registered theorem)".format(
-            " ".join(spec["modules"]), prop),
+        "checker_cmd": "cd lean && lake build {} && lake env lean .cache/audit/Audit_{}.lean  (#print axioms of every registered theorem){}".format(
+            " ".join(spec["modules"]), prop, " && lake env leanchecker " + " ".join(spec["modules"]) if proof.get("leanchecker") else ""),
         "trusted_base": TRUSTED_BASE,
         "theorems": obligations,
         "evaluations": run.evaluations, "distinct_nontrivial": len(run.distinct),
@@ -177,13 +177,21 @@ def finish(run, spec, proof, sw):
     return exit_code
 
 
-def prove(prop, spec):
-    """build the property's modules + driver, audit axioms, textual scan"""
+def prove(prop, spec, tier="quick"):
+    """build the property's modules + driver, audit axioms, textual scan; thorough: re-check the .olean files with leanchecker"""
     built, out = lake_build(spec["modules"] + ["driver"])
     axioms = {}
     if built:
         axioms, _ = audit_axioms(prop, spec["modules"], spec["theorems"])
+        if tier == "thorough" and spec["modules"]:
+            from common import BuildLock, LEAN_DIR, run as _run
+            with BuildLock():
+                rc, o, e = _run(["lake", "env", "leanchecker"] + list(spec["modules"]), cwd=LEAN_DIR, timeout=3000)
+            if rc != 0:
+                built = False
+                out = "leanchecker rejected the compiled modules: " + (o + e)[-800:]
     else:
         # the driver may still be buildable (needed for the failing-input search)
         lake_build(["driver"])
-    return {"built": built, "build_output": out, "axioms": axioms, "forbidden": scan_forbidden()}
+    return {"built": built, "build_output": out, "axioms": axioms, "forbidden": scan_forbidden(),
+            "leanchecker": tier == "thorough" and built}
